@@ -140,10 +140,16 @@ class Undecided(Exception):
 class SliceCell:
     """A homogeneous slice: every element in one cell, length in [len_lo, len_hi]"""
 
-    def __init__(self, elem, len_lo, len_hi, min_pos):
-        self.elem, self.len_lo, self.len_hi, self.min_pos = elem, len_lo, len_hi, min_pos
-        self.name = "[%s; len %s]" % (elem.name, len_lo if len_lo == len_hi else "%d..%d" % (len_lo, len_hi))
-        self.value = Rf(None, Vc(elem.value, usize(len_lo, len_hi)), False)
+    def __init__(self, elem, len_lo, len_hi, min_pos, head=None):
+        self.elem, self.len_lo, self.len_hi, self.min_pos, self.head = elem, len_lo, len_hi, min_pos, head
+        ln = len_lo if len_lo == len_hi else "%d..%d" % (len_lo, len_hi)
+        if head is None:
+            self.name = "[%s; len %s]" % (elem.name, ln)
+            self.value = Rf(None, Vc(elem.value, usize(len_lo, len_hi)), False)
+        else:
+            self.name = "[%s, then %s; len %s]" % (head.name, elem.name, ln)
+            self.value = Rf(None, Vc(elem.value, usize(len_lo, len_hi), head.value), False)
+        self.elems = [elem] if head is None else [head, elem]
         self.nan = self.pinf = self.ninf = False
 
     def rng(self):
@@ -157,19 +163,23 @@ LADDER = [1, 2]
 LADDER_THOROUGH = [-2, -1, 1, 2, 3]
 
 
-def float_cells(bits, cuts, thorough=False):
+def float_cells(bits, cuts, thorough=False, extremes=False):
     cells = [Cell("nan", Fl(nan=True)), Cell("-inf", Fl(ninf=True)), Cell("+inf", Fl(pinf=True)),
              Cell("-0", Fl(nz=True)), Cell("+0", Fl.point(0))]
     pts = sorted({Fraction(c) for c in cuts if c == c and abs(c) != float("inf") and c != 0})
-    if thorough:
+    if thorough or extremes:
         mp, mx = (F32_MIN_POS, F32_MAX) if bits == 32 else (F64_MIN_POS, F64_MAX)
-        pts = sorted(set(pts) | {mp, mx, -mp, -mx})
+        tiny = Fraction(2) ** (-149 if bits == 32 else -1074)       # smallest positive subnormal
+        pts = sorted(set(pts) | ({mp, mx, -mp, -mx, tiny} if thorough else {mx, tiny}))
     allp = sorted(set(pts) | {Fraction(0)})
     for i, p in enumerate(allp):
         if p != 0:
             cells.append(Cell("{%s}" % _fs(p), Fl.point(p), p, p))
     bounds = [V.NINF] + allp + [V.INF]
+    fmax = F32_MAX if bits == 32 else F64_MAX
     for lo, hi in zip(bounds, bounds[1:]):
+        if (lo != V.NINF and lo >= fmax) or (hi != V.INF and hi <= -fmax):
+            continue      # no float of this type lies beyond ±MAX
         cells.append(Cell("(%s,%s)" % (_fs(lo), _fs(hi)), Fl([(lo, False, hi, False)]), lo if lo != V.NINF else -(Fraction(10) ** 400),
                           hi if hi != V.INF else Fraction(10) ** 400))
     return cells
@@ -247,9 +257,10 @@ def outcome_names(F, rv):
     return outs
 
 
-def run_case(F, ax, entry, insts, case_vals):
+def run_case(F, ax, entry, insts, case_vals, ieee=None):
     """Run one case through the (pipeline of) constructor(s).  -> (outcomes set, events, imprecise list, ok payload)"""
     ip = Interp(F, ax)
+    ip.ieee = ieee
     steps = entry.get("pipeline") or [(entry["path"], [a for a, _ in entry["args"]])]
     prev = None
     st = {}
@@ -317,12 +328,23 @@ def run_entry(args):
             mp = F32_MIN_POS if bits == 32 else F64_MIN_POS
             cs = {mp if c == "MIN_POS" else c for c in cuts.get(name, [])}
             elems = float_cells(bits, cs, False)
-            cellsets.append([SliceCell(e, lo, hi, mp) for e in elems for lo, hi in ((0, 0), (1, 1), (2, 2), (3, 3), (4, 9))])
+            homog = [SliceCell(e, lo, hi, mp) for e in elems for lo, hi in ((0, 0), (1, 1), (2, 2), (3, 3), (4, 9))]
+            # position-sensitive cases: the first element in one cell, all the others in a valid cell, and the reverse
+            good = [e for e in elems if e.pos and not e.point and e.lo is not None and e.lo >= mp]
+            hetero = []
+            for g in good[:2]:
+                for e in elems:
+                    if e is g:
+                        continue
+                    for lo, hi in ((2, 2), (3, 3)):
+                        hetero.append(SliceCell(g, lo, hi, mp, head=e))
+                        hetero.append(SliceCell(e, lo, hi, mp, head=g))
+            cellsets.append(homog + hetero)
         elif kind == "f":
             cs = set(cuts.get(name, [])) | (consts if tier == "thorough" else set(sorted(consts, key=abs)[:entry.get("quick_consts", 12 if len(entry["args"]) <= 2 else 2)]))
             if name in ordered:
                 cs = set(cuts.get(name, [])) | set(LADDER_THOROUGH if tier == "thorough" else LADDER)
-            cellsets.append(float_cells(bits, cs, tier == "thorough"))
+            cellsets.append(float_cells(bits, cs, tier == "thorough", extremes=(len(entry["args"]) <= 2)))
         else:
             b = int(kind[1:])
             cellsets.append(int_cells(b, kind[0] == "i", name in ordered))
@@ -350,7 +372,7 @@ def run_entry(args):
             res["errors"].append(str(e))
             continue
         try:
-            outs, events, imprecise, okp = run_case(F, ax, entry, insts, vals)
+            outs, events, imprecise, okp = run_case(F, ax, entry, insts, vals, ieee=bits)
         except Exception as e:  # noqa: BLE001
             import traceback
             res["errors"].append("%s: %s" % (dict(case), traceback.format_exc().splitlines()[-1]))
@@ -400,6 +422,9 @@ def accessor_rules(chk, F):
     ax = Axioms(F)
     # distinct marker cells per argument position, all valid
     markers = [Fl.rng(2, False, 3, False), Fl.rng(5, False, 6, False), Fl.rng(8, False, 9, False)]
+    # Normal's std_dev may be negative (documented): use a negative marker there so that a stored |std_dev| is seen
+    neg_ok = {("normal::Normal::<F>::new", "std_dev"): Fl.rng(-6, False, -5, False), ("normal::Normal::<F>::new", "mean"): Fl.rng(-3, False, -2, False),
+              ("skew_normal::SkewNormal::<F>::new", "location"): Fl.rng(-3, False, -2, False), ("skew_normal::SkewNormal::<F>::new", "shape"): Fl.rng(-9, False, -8, False)}
     n = 0
     for cpath, apath, argname in ACCESSORS:
         entry = next(e for e in SPEC if e["path"] == cpath)
@@ -410,6 +435,9 @@ def accessor_rules(chk, F):
                 continue
             names = [a for a, _ in entry["args"]]
             vals = dict(zip(names, markers))
+            for a in names:
+                if (cpath, a) in neg_ok:
+                    vals[a] = neg_ok[(cpath, a)]
             ip = Interp(F, ax)
             rv, st = ip.run_root(cinst, [vals[a] for a in names])
             if not isinstance(rv, En) or 0 not in rv.variants:
